@@ -72,6 +72,22 @@ CHECKS["C20"] = dict(
    note="a future dropped before completion is explored and reported only; middleware/tonic cannot be built offline",
    technique="TLA+ spec Tower.tla; TLC model checking; TLC-generated behaviours replayed into the code; TLC trace validation",
    ref="DESIGN.md §6 C20")
+CHECKS["C11"] = dict(
+   text="The enforcement specifications carry the run-time state per rule and define what a reload does to it: a rule equal to an old one (whatever its id, its position, the loading call or the fate of other resources) keeps its window / token buckets / pacing schedule / breaker state, a changed rule starts fresh or inherits and its new parameters decide the very next entry. TLC model-checks the flow model with reloads enabled at every point, replays every bounded behaviour with reloads into the real code, and validates random histories of the flow, hotspot, circuit-breaker and throttling drivers with reloads (same rules under regenerated ids, reordered, other resources added / changed / removed, and one field of one rule changed) inserted at random points: every later decision, breaker state and listener record must be what the state carried across the reload prescribes",
+   note="continuity is asserted for rules equal under rule equality; a changed rule with a private window / buckets / schedule may inherit or start empty; warm-up continuity only through the C08 envelope; the rule named in a rejection is compared by id or by the description its controller was built from",
+   technique="TLA+ specs FlowReject / HotspotQps / Breaker / Throttle with reload actions; TLC model checking; TLC-generated behaviours replayed into the code; TLC trace validation of recorded executions",
+   ref="DESIGN.md §6 C11")
+CHECKS["C12"] = dict(
+   category="fault_enumeration",
+   text="RuleSpace.tla defines the rule space of the five families (cross product of every enum-valued field with boundary numerics incl. negative, NaN, zero durations, empty names, Custom(_) strategies, a related resource that exists / never existed), the validity predicates, and what a case must look like; TLC enumerates the space (sampled in the quick tier, complete in the thorough tier) x every loading entry point on a fresh and on a populated resource; each case runs in worker processes against the real managers with a logger that formats every record, followed by nine entry shapes (no / short / long argument lists, attachments, batch 0 / 1 / 10^6, inbound, empty resource name) and a health probe of every manager; TLC validates every case: no panic anywhere, accepted rules reported active and enforceable, rejected ones refused or ignored, nothing poisoned afterwards",
+   note="'does not hang' is decided for virtual time; a valid rule of a Custom(_) strategy without registered generator may or may not be reported; the quick tier samples 400 rules per large family",
+   technique="TLA+ spec RuleSpace.tla (rule space, validity predicates, case predicate); TLC enumeration replayed as one implementation test per case; TLC validation of every observed case",
+   ref="DESIGN.md §6 C12")
+CHECKS["C19"] = dict(
+   text="MetricLog.tla judges the writer's operation stream (file creations / removals, index entries, lines, in program order, observed through a guarded hook) and every search result: an item is owed iff its line and its second's index entry are complete, its file exists and it was written in a second after the writer was created; searches must return the owed items that match, in write order. TLC model-checks a mechanism model of the writer (roll by day / size, retention) and of the index-based search against that statement for every query window and line limit at every crash prefix of the stream, and refutes the design as originally found. TLC-generated write histories (size limits forcing roll-overs, day changes, retention 1..3) and random ones are executed on the real DefaultMetricLogWriter / DefaultMetricSearcher (one searcher per history, so its position cache is exercised); for prefixes of the recorded stream the directory a crash would have left is rebuilt and searched; TLC validates every result",
+   note="crash points: every byte of the calls examined in the crash-all runs, operation boundaries + all positions inside index entries + sampled positions inside lines otherwise; one writer per directory, no restart; an error instead of an empty result is tolerated when nothing is owed",
+   technique="TLA+ specs MetricLog.tla (Tier A) and MC_MetricLog.tla (writer + search mechanism, crash prefixes); TLC model checking; TLC-generated histories replayed into the code; TLC trace validation incl. crash states",
+   ref="DESIGN.md §6 C19")
 NOT_APPLICABLE = {}
 
 def main():
